@@ -157,7 +157,21 @@ def annotate(src_text, wanted):
     t = _strip_comments_keep_layout(src_text)
     spans = {name: (s, e) for name, s, e in function_spans(t)}
     inserts = []
-    for (fn, n), macro in wanted.items():
+    for key, macro in wanted.items():
+        if len(key) == 3:
+            # (function, 'before', text): ghost statement placed before the first occurrence of
+            # `text` in the function body (used only to export the addresses of function-local
+            # statics to the harness; the inserted macro must expand to complete statements)
+            fn, mode, text = key
+            if fn not in spans:
+                raise AnnotateError('function %s not found for ghost insertion' % fn)
+            s0, e0 = spans[fn]
+            k = t.find(text, s0, e0)
+            if mode != 'before' or k < 0 or t.find(text, k + 1, e0) >= 0:
+                raise AnnotateError('ghost insertion point %r not found exactly once in %s' % (text, fn))
+            inserts.append((k, ' ' + macro + ' '))
+            continue
+        fn, n = key
         if fn not in spans:
             raise AnnotateError('function %s not found for loop annotation' % fn)
         s, e = spans[fn]
